@@ -18,10 +18,15 @@ REQUIRED = [
 ]
 RULE = ('(a) utils level: random tagged arrays of rank 1-5 in random dimension order through '
         'move_dimensions_to_end / ravel_dimensions / wind_dimension / find_unused_dimension, incl. absent '
-        'dimensions, colliding and auto-chosen linear names, size mismatches; (b) convention level: every '
-        'convention x every grid kind x variables with 0-3 extra dimensions in random permutation through '
-        'ems.ravel then ems.wind (default / axis / name, custom linear names), and arbitrary linear data '
-        'through ems.wind then ems.ravel with the linear dimension at every position; variables on no grid. '
+        'dimensions, colliding and auto-chosen linear names, a new dimension that takes over the name of the one '
+        'being wound, size mismatches; (b) convention level: every convention x every grid kind x variables with '
+        '0-3 extra dimensions in random permutation through ems.ravel then ems.wind (default / axis / name, '
+        'custom linear names incl. the name of a grid dimension of this or another kind), and arbitrary linear '
+        'data (linear dimension called index / cells / after a grid dimension) through ems.wind then ems.ravel '
+        'with the linear dimension at every position; variables on no grid. The dataset itself has non-grid '
+        'dimensions (time, k, bounds / connectivity vertex dimensions); the extra dimensions of a variable are '
+        'drawn from those names - at the dataset\'s length or, half of the time, at another one - and from names '
+        'the dataset does not have. '
         'Data are distinct integer tags, compared element by element together with dims. Non-trivial: rank >= 3 '
         'with the grid dimensions not already last and in order, or an error case; distinct by (dims, op, args).')
 TRUSTED = ['numpy reshape/transpose on C-ordered data; xarray.DataArray.transpose; python tuple indexing']
@@ -40,7 +45,10 @@ def call(f, *a, **k) -> str:
         r = f(*a, **k)
     except Exception:
         return 'ERR'
-    return r if isinstance(r, str) else arr_str(r)
+    try:
+        return r if isinstance(r, str) else arr_str(r)
+    except Exception:
+        return 'ODD'
 
 
 def tagged(dims, sizes, base=0, rng=None) -> xr.DataArray:
@@ -69,6 +77,221 @@ def grids_spec(built) -> str:
     return ';'.join(
         f"{k}=" + ','.join(f'{d}:{s}' for d, s in zip(dims, shape))
         for k, (dims, shape) in built.grids.items())
+
+
+MAX_ELEMS = 400     # elements of one generated variable (every one of them travels through the line protocol)
+
+
+def other_sizes(rng, ds_other: dict) -> dict:
+    """sizes of the dimensions that accompany the grid dimensions of ONE variable: a name the dataset also uses
+    (time, k, the vertex dimension of the bounds ...) keeps the dataset's length or - a few time steps, a depth
+    subset, a longer record - has another one; names the dataset has never heard of have any length"""
+    sizes = {}
+    for d, n in ds_other.items():
+        sizes[d] = n if rng.random() < 0.5 else rng.choice([k for k in (1, 2, 3, 4) if k != n])
+    sizes['index'] = rng.randint(1, 3)
+    sizes['spare'] = rng.randint(1, 3)
+    return sizes
+
+
+def flat_str(dims_sizes, values) -> str:
+    vals = np.asarray(values).reshape(-1)
+    return (','.join(f'{d}:{s}' for d, s in dims_sizes) or '-') + '|' + (','.join(str(int(v)) for v in vals) or '-')
+
+
+def convention_cases(ctx, conv: str, items: list) -> None:
+    """one generated dataset of convention `conv`: every grid kind x (ravel then wind) x (wind then ravel),
+    variables on no grid, variables with part of a grid"""
+    rng = ctx.rng
+    recipe = G.random_recipe(rng, conv, ctx.tier, max_n=4) if conv != 'ugrid' else G.random_recipe(rng, conv, ctx.tier, max_w=2, max_h=2)
+    # the dataset itself has dimensions that belong to no grid (an auxiliary variable over time and k)
+    recipe = dict(recipe)
+    recipe['vars'] = [{'name': 'aux', 'kind': None, 'extra': ['time', 'k'], 'base': 0, 'dtype': 'f8'}]
+    recipe['sizes_extra'] = {'time': rng.randint(1, 4), 'k': rng.randint(1, 3)}
+    built = G.build(recipe)
+    c = G.bind(built)
+    gs = grids_spec(built)
+    dflt = built.default_kind
+    kind_objs = {getattr(k, 'value', k): k for k in c.grid_kinds}
+    all_grid_dims = [d for gd, _ in built.grids.values() for d in gd]
+    # every dimension of the generated dataset that is not a grid dimension (generator output, not read via emsarray)
+    ds_other = {str(d): int(n) for d, n in built.ds.sizes.items() if d not in all_grid_dims}
+    other_names = list(ds_other) + ['index', 'spare']
+    for kind, (gdims, gshape) in built.grids.items():
+        gsize = int(np.prod(gshape))
+        if gsize > 60:
+            continue
+        foreign = [d for d in all_grid_dims if d not in gdims]
+        for _ in range(3):
+            sizes = other_sizes(rng, ds_other)
+            sizes.update(zip(gdims, gshape))
+            ne = rng.randint(0, 3)
+            extra = rng.sample(other_names, ne)
+            while extra and gsize * int(np.prod([sizes[d] for d in extra])) > MAX_ELEMS:
+                extra.pop()
+            dims = list(gdims) + extra
+            rng.shuffle(dims)
+            da = tagged(dims, sizes, base=rng.randint(0, 9), rng=rng)
+            a = arr_str(da)
+            # the name of the linear dimension: default, a fresh name, one the variable keeps (refused), or the
+            # name of a dimension that the flattening removes / of another grid's dimension (both are free)
+            lin = rng.choice([None, None, 'cells', 'index', extra[0] if extra else 'lin',
+                              rng.choice(gdims), rng.choice(gdims), rng.choice(foreign or gdims)])
+            mismatch = sorted(d for d in extra if d in ds_other and sizes[d] != ds_other[d])
+            line = f"ravel {gs} {dflt} {a} {lin or '-'}"
+            desc = {'recipe': recipe, 'op': line, 'dims': dims, 'sizes': [sizes[d] for d in dims], 'kind': kind, 'linear_dimension': lin,
+                    'dataset_sizes_of_other_dims': {d: ds_other[d] for d in extra if d in ds_other}}
+            try:
+                flat = c.ravel(da) if lin is None else c.ravel(da, linear_dimension=lin)
+                out = arr_str(flat)
+            except Exception:
+                flat, out = None, 'ERR'
+            items.append((line, out, {'recipe': recipe, 'op': line}))
+            ctx.count(f'ravel:{conv}:{kind}')
+            ctx.count('ravel:other-dim-length:' + ('differs-from-dataset' if mismatch else 'as-dataset-or-unknown'))
+            ctx.count('ravel:linear-name:' + ('default' if lin is None else 'grid-dimension' if lin in all_grid_dims else 'other'))
+            nontriv = len(dims) >= 3 and dims[-len(gdims):] != list(gdims)
+            if nontriv:
+                ctx.nontrivial(('ravel', conv, kind, tuple(dims), lin))
+            others = [d for d in dims if d not in gdims]
+            if lin is not None and lin in others:
+                if flat is not None:
+                    ctx.oracle_fail('ravel-linear-name-collision', desc,
+                                    f'ems.ravel accepted linear_dimension={lin!r} although the variable keeps a dimension of that name: dims {flat.dims}')
+                continue
+            if flat is None:
+                ctx.oracle_fail('ravel-raised', desc, 'ems.ravel raised on a variable defined on a grid')
+                continue
+            # flattening alone: other dimensions first and in their order, then the linear one (the requested name,
+            # else the first of index, index_0, ... the variable does not use); values as in the transposed variable
+            lexp, k = (lin, 0) if lin is not None else ('index', 0)
+            while lin is None and lexp in dims:
+                lexp, k = f'index_{k}', k + 1
+            tr = da.transpose(*others, *gdims)
+            expect_flat = flat_str([(d, sizes[d]) for d in others] + [(lexp, gsize)], tr.values)
+            if out != expect_flat:
+                ctx.oracle_fail('ravel-differs', desc, f'ravel(v) = {out[:120]} expected {expect_flat[:120]}')
+            # wind it back: default position, axis, name
+            lname = flat.dims[-1]
+            mode = rng.choice(['default', 'axis', 'naxis', 'name'])
+            kw = {'grid_kind': kind_objs[kind]}
+            if kind == dflt and rng.random() < 0.5:
+                kw = {}
+            if mode == 'axis':
+                kw['axis'] = len(flat.dims) - 1
+            elif mode == 'naxis':
+                kw['axis'] = -1
+            elif mode == 'name':
+                kw['linear_dimension'] = lname
+            wline = (f"wind {gs} {dflt} {out} {kind if 'grid_kind' in kw else '-'} "
+                     f"{kw.get('axis', '-')} {kw.get('linear_dimension', '-')}")
+            try:
+                wound = c.wind(flat, **kw)
+                wout = arr_str(wound)
+            except Exception:
+                wound, wout = None, 'ERR'
+            items.append((wline, wout, {'recipe': recipe, 'op': wline}))
+            # oracle: wind(ravel(v)) == v transposed to others + grid dims
+            expect = arr_str(tr)
+            if wout != expect:
+                ctx.oracle_fail('wind-of-ravel-differs', {**desc, 'op': wline, 'mode': mode},
+                                f'wind(ravel(v)) = {wout[:120]} expected {expect[:120]}')
+            # values are only moved: their storage type is what it was
+            if flat.dtype != da.dtype or (wound is not None and wound.dtype != da.dtype):
+                ctx.oracle_fail('storage-type-changed', {**desc, 'dtype': str(da.dtype)},
+                                f'{da.dtype} data: ravel gives {flat.dtype}, wind gives {None if wound is None else wound.dtype}')
+        # arbitrary linear data, linear dimension at every position
+        for _ in range(3):
+            sizes2 = other_sizes(rng, ds_other)
+            ne = rng.randint(0, 3)
+            extra = rng.sample([d for d in other_names if d != 'index'], ne)
+            while extra and gsize * int(np.prod([sizes2[d] for d in extra])) > MAX_ELEMS:
+                extra.pop()
+            ne = len(extra)
+            # the linear dimension may be called anything the data does not already use - also after a grid dimension
+            # (UGRID data on faces is already linear and is called after the face dimension)
+            lname = rng.choice(['index', 'cells', rng.choice(gdims), rng.choice(foreign or gdims)])
+            pos = rng.randint(0, ne)
+            dims = extra[:pos] + [lname] + extra[pos:]
+            sizes2[lname] = gsize
+            x = tagged(dims, sizes2, base=rng.randint(0, 9), rng=rng)      # any storage type / memory layout
+            xs = arr_str(x)
+            mode = rng.choice(['axis', 'naxis', 'name'] + (['default'] if pos == ne else []))
+            kw = {'grid_kind': kind_objs[kind]}
+            if mode == 'axis':
+                kw['axis'] = pos
+            elif mode == 'naxis':
+                kw['axis'] = pos - len(dims)
+            elif mode == 'name':
+                kw['linear_dimension'] = lname
+            if rng.random() < 0.08:
+                kw['axis'] = rng.choice([len(dims), -len(dims) - 1])
+                mode = 'badaxis'
+            wline = (f"wind {gs} {dflt} {xs} {kind} {kw.get('axis', '-')} {kw.get('linear_dimension', '-')}")
+            desc = {'recipe': recipe, 'op': wline, 'dims': dims, 'sizes': [sizes2[d] for d in dims], 'kind': kind, 'mode': mode,
+                    'dataset_sizes_of_other_dims': {d: ds_other[d] for d in extra if d in ds_other}}
+            try:
+                wound = c.wind(x, **kw)
+                wout = arr_str(wound)
+            except Exception:
+                wound, wout = None, 'ERR'
+            items.append((wline, wout, {'recipe': recipe, 'op': wline}))
+            ctx.count(f'wind:{conv}:{kind}:{mode}')
+            ctx.count('wind:linear-name:' + ('grid-dimension' if lname in all_grid_dims else 'other'))
+            if len(dims) >= 2 and pos != ne:
+                ctx.nontrivial(('wind', conv, kind, tuple(dims), mode))
+            if wound is None:
+                if mode != 'badaxis':
+                    ctx.oracle_fail('wind-raised', desc, 'ems.wind raised on well-formed linear data')
+                continue
+            if mode == 'badaxis':
+                ctx.oracle_fail('wind-bad-axis-accepted', {**desc, 'axis': kw['axis']}, f'ems.wind accepted axis {kw["axis"]} on rank {len(dims)}')
+                continue
+            # oracle: the grid dimensions stand where the linear one stood, the other dimensions are untouched and in
+            # place, the values are those of x in the same (C) order
+            exp_ds = ([(d, sizes2[d]) for d in extra[:pos]] + list(zip(gdims, gshape)) + [(d, sizes2[d]) for d in extra[pos:]])
+            expect_w = flat_str(exp_ds, x.values)
+            if tuple(wound.dims) != tuple(d for d, _ in exp_ds):
+                ctx.oracle_fail('wind-dims-order', desc, f'wind dims {wound.dims}, expected {tuple(d for d, _ in exp_ds)}')
+            elif wout != expect_w:
+                ctx.oracle_fail('wind-differs', desc, f'wind(x) = {wout[:120]} expected {expect_w[:120]}')
+            # ravel(wind(x)) == x with lname moved last
+            rline = f"ravel {gs} {dflt} {wout} {lname}"
+            try:
+                back = c.ravel(wound, linear_dimension=lname)
+                bout = arr_str(back)
+            except Exception:
+                back, bout = None, 'ERR'
+            items.append((rline, bout, {'recipe': recipe, 'op': rline}))
+            expect = arr_str(x.transpose(*extra, lname))
+            if bout != expect:
+                ctx.oracle_fail('ravel-of-wind-differs', desc,
+                                f'ravel(wind(x)) = {bout[:120]} expected {expect[:120]}')
+            if wound.dtype != x.dtype or (back is not None and back.dtype != x.dtype):
+                ctx.oracle_fail('storage-type-changed', {**desc, 'dtype': str(x.dtype)},
+                                f'{x.dtype} data: wind gives {wound.dtype}, ravel gives {None if back is None else back.dtype}')
+    # a variable on no grid is refused - whether or not the dataset knows its dimensions, at any length
+    for dims in (['time'], ['time', 'k'], [], ['spare', 'index']):
+        da = tagged(dims, other_sizes(rng, ds_other))
+        line = f"ravel {gs} {dflt} {arr_str(da)} -"
+        try:
+            out = arr_str(c.ravel(da))
+            ctx.oracle_fail('no-grid-accepted', {'recipe': recipe, 'dims': dims}, f'ems.ravel accepted a variable on no grid: {out[:80]}')
+        except Exception:
+            out = 'ERR'
+        items.append((line, out, {'recipe': recipe, 'op': line}))
+        ctx.nontrivial(('nogrid', conv, tuple(dims)))
+    # only some of a kind's dimensions present -> refused (superset test)
+    if built.conv != 'ugrid':
+        gd = built.grids['face'][0]
+        da = tagged([gd[0], 'time'], {gd[0]: built.grids['face'][1][0], 'time': 2})
+        line = f"ravel {gs} {dflt} {arr_str(da)} -"
+        try:
+            out = arr_str(c.ravel(da))
+            ctx.oracle_fail('partial-grid-accepted', {'recipe': recipe, 'dims': [gd[0], 'time']}, 'ems.ravel accepted a variable with only one of the grid dimensions')
+        except Exception:
+            out = 'ERR'
+        items.append((line, out, {'recipe': recipe, 'op': line}))
 
 
 def run(ctx) -> None:
@@ -107,9 +330,24 @@ def run(ctx) -> None:
             if rng.random() < 0.1:
                 fac = (fac[0] + 1, fac[1])
             nd = [('wy', fac[0]), ('wx', fac[1])]
+            # the dimension that is wound disappears, so one of the new dimensions may take its name
+            # (winding UGRID data whose linear dimension is already called after the face dimension)
+            reuse = rng.random() < 0.3
+            if reuse:
+                k = rng.randrange(2)
+                nd[k] = (lin, nd[k][1])
             line = f"uwind {a} {','.join(f'{n}:{s}' for n, s in nd)} {lin}"
             out = call(utils.wind_dimension, da, [n for n, _ in nd], [s for _, s in nd], linear_dimension=lin)
-            key = ('uwind', tuple(dims), lin, fac)
+            key = ('uwind', tuple(dims), lin, fac, reuse)
+            if lin in dims and fac[0] * fac[1] == target:
+                # direct oracle: the same values in the same C order, the wound dimension replaced in place
+                k = dims.index(lin)
+                exp_dims = [(d, sizes[d]) for d in dims[:k]] + nd + [(d, sizes[d]) for d in dims[k + 1:]]
+                expect = ','.join(f'{n}:{s}' for n, s in exp_dims) + '|' + a.split('|')[1]
+                if out != expect:
+                    ctx.oracle_fail('wind-dimension-differs' if out != 'ERR' else 'wind-dimension-raised',
+                                    {'op': line, 'dims': dims, 'sizes': [sizes[d] for d in dims], 'new': nd, 'linear_dimension': lin},
+                                    f'wind_dimension gives {out[:120]}, expected {expect[:120]}')
         else:
             names = rng.sample(['index', 'index_0', 'index_1', 'index_2', 'dim', 't'], rng.randint(0, 5))
             pfx = rng.choice(['index', 'index', 'dim'])
@@ -128,151 +366,7 @@ def run(ctx) -> None:
     n_ds = ctx.budget(25, 150)
     for dnum in range(n_ds):
         conv = G.CONVS[dnum % len(G.CONVS)]
-        recipe = G.random_recipe(rng, conv, ctx.tier, max_n=4) if conv != 'ugrid' else G.random_recipe(rng, conv, ctx.tier, max_w=2, max_h=2)
-        built = G.build(recipe)
-        c = G.bind(built)
-        gs = grids_spec(built)
-        dflt = built.default_kind
-        kind_objs = {getattr(k, 'value', k): k for k in c.grid_kinds}
-        extra_pool = {'time': rng.randint(1, 3), 'k': rng.randint(1, 2), 'index': 2, 'spare': 2}
-        for kind, (gdims, gshape) in built.grids.items():
-            gsize = int(np.prod(gshape))
-            if gsize > 60:
-                continue
-            sizes = dict(zip(gdims, gshape))
-            sizes.update(extra_pool)
-            for _ in range(3):
-                ne = rng.randint(0, 3)
-                extra = rng.sample(list(extra_pool), ne)
-                dims = list(gdims) + extra
-                rng.shuffle(dims)
-                da = tagged(dims, sizes, base=rng.randint(0, 9), rng=rng)
-                a = arr_str(da)
-                lin = rng.choice([None, None, 'cells', 'index', extra[0] if extra else 'lin'])
-                line = f"ravel {gs} {dflt} {a} {lin or '-'}"
-                try:
-                    flat = c.ravel(da) if lin is None else c.ravel(da, linear_dimension=lin)
-                    out = arr_str(flat)
-                except Exception:
-                    flat, out = None, 'ERR'
-                items.append((line, out, {'recipe': recipe, 'op': line}))
-                ctx.count(f'ravel:{conv}:{kind}')
-                nontriv = len(dims) >= 3 and dims[-len(gdims):] != list(gdims)
-                if nontriv:
-                    ctx.nontrivial(('ravel', conv, kind, tuple(dims), lin))
-                others = [d for d in dims if d not in gdims]
-                if lin is not None and lin in others:
-                    if flat is not None:
-                        ctx.oracle_fail('ravel-linear-name-collision', {'recipe': recipe, 'dims': dims, 'linear_dimension': lin},
-                                        f'ems.ravel accepted linear_dimension={lin!r} although the variable keeps a dimension of that name: dims {flat.dims}')
-                    continue
-                if flat is None:
-                    ctx.oracle_fail('ravel-raised', {'recipe': recipe, 'dims': dims, 'linear_dimension': lin}, 'ems.ravel raised on a variable defined on a grid')
-                    continue
-                # wind it back: default position, axis, name
-                lname = flat.dims[-1]
-                mode = rng.choice(['default', 'axis', 'naxis', 'name'])
-                kw = {'grid_kind': kind_objs[kind]}
-                if kind == dflt and rng.random() < 0.5:
-                    kw = {}
-                if mode == 'axis':
-                    kw['axis'] = len(flat.dims) - 1
-                elif mode == 'naxis':
-                    kw['axis'] = -1
-                elif mode == 'name':
-                    kw['linear_dimension'] = lname
-                wline = (f"wind {gs} {dflt} {arr_str(flat)} {kind if 'grid_kind' in kw else '-'} "
-                         f"{kw.get('axis', '-')} {kw.get('linear_dimension', '-')}")
-                try:
-                    wound = c.wind(flat, **kw)
-                    wout = arr_str(wound)
-                except Exception:
-                    wound, wout = None, 'ERR'
-                items.append((wline, wout, {'recipe': recipe, 'op': wline}))
-                # oracle: wind(ravel(v)) == v transposed to others + grid dims
-                expect = arr_str(da.transpose(*others, *gdims))
-                if wout != expect:
-                    ctx.oracle_fail('wind-of-ravel-differs', {'recipe': recipe, 'dims': dims, 'kind': kind, 'mode': mode, 'linear_dimension': lin},
-                                    f'wind(ravel(v)) = {wout[:120]} expected {expect[:120]}')
-                # values are only moved: their storage type is what it was
-                if flat.dtype != da.dtype or (wound is not None and wound.dtype != da.dtype):
-                    ctx.oracle_fail('storage-type-changed', {'recipe': recipe, 'dims': dims, 'kind': kind, 'dtype': str(da.dtype)},
-                                    f'{da.dtype} data: ravel gives {flat.dtype}, wind gives {None if wound is None else wound.dtype}')
-            # arbitrary linear data, linear dimension at every position
-            for _ in range(3):
-                ne = rng.randint(0, 3)
-                extra = rng.sample(['time', 'k', 'spare'], ne)
-                lname = rng.choice(['index', 'cells'])
-                pos = rng.randint(0, ne)
-                dims = extra[:pos] + [lname] + extra[pos:]
-                sizes2 = dict(extra_pool)
-                sizes2[lname] = gsize
-                x = tagged(dims, sizes2, base=rng.randint(0, 9))
-                mode = rng.choice(['axis', 'naxis', 'name'] + (['default'] if pos == ne else []))
-                kw = {'grid_kind': kind_objs[kind]}
-                if mode == 'axis':
-                    kw['axis'] = pos
-                elif mode == 'naxis':
-                    kw['axis'] = pos - len(dims)
-                elif mode == 'name':
-                    kw['linear_dimension'] = lname
-                if rng.random() < 0.08:
-                    kw['axis'] = rng.choice([len(dims), -len(dims) - 1])
-                    mode = 'badaxis'
-                wline = (f"wind {gs} {dflt} {arr_str(x)} {kind} {kw.get('axis', '-')} {kw.get('linear_dimension', '-')}")
-                try:
-                    wound = c.wind(x, **kw)
-                    wout = arr_str(wound)
-                except Exception:
-                    wound, wout = None, 'ERR'
-                items.append((wline, wout, {'recipe': recipe, 'op': wline}))
-                ctx.count(f'wind:{conv}:{kind}:{mode}')
-                if len(dims) >= 2 and pos != ne:
-                    ctx.nontrivial(('wind', conv, kind, tuple(dims), mode))
-                if wound is None:
-                    if mode != 'badaxis':
-                        ctx.oracle_fail('wind-raised', {'recipe': recipe, 'dims': dims, 'kind': kind, 'mode': mode}, 'ems.wind raised on well-formed linear data')
-                    continue
-                if mode == 'badaxis':
-                    ctx.oracle_fail('wind-bad-axis-accepted', {'recipe': recipe, 'dims': dims, 'axis': kw['axis']}, f'ems.wind accepted axis {kw["axis"]} on rank {len(dims)}')
-                    continue
-                # oracle: other dimensions untouched and in place; ravel(wind(x)) == x with lname moved last
-                exp_dims = tuple(extra[:pos]) + tuple(gdims) + tuple(extra[pos:])
-                if tuple(wound.dims) != exp_dims:
-                    ctx.oracle_fail('wind-dims-order', {'recipe': recipe, 'dims': dims, 'kind': kind, 'mode': mode}, f'wind dims {wound.dims}, expected {exp_dims}')
-                rline = f"ravel {gs} {dflt} {wout} {lname}"
-                try:
-                    back = c.ravel(wound, linear_dimension=lname)
-                    bout = arr_str(back)
-                except Exception:
-                    back, bout = None, 'ERR'
-                items.append((rline, bout, {'recipe': recipe, 'op': rline}))
-                expect = arr_str(x.transpose(*extra, lname))
-                if bout != expect:
-                    ctx.oracle_fail('ravel-of-wind-differs', {'recipe': recipe, 'dims': dims, 'kind': kind, 'mode': mode},
-                                    f'ravel(wind(x)) = {bout[:120]} expected {expect[:120]}')
-        # a variable on no grid is refused
-        for dims in (['time'], ['time', 'k'], []):
-            da = tagged(dims, extra_pool)
-            line = f"ravel {gs} {dflt} {arr_str(da)} -"
-            try:
-                out = arr_str(c.ravel(da))
-                ctx.oracle_fail('no-grid-accepted', {'recipe': recipe, 'dims': dims}, f'ems.ravel accepted a variable on no grid: {out[:80]}')
-            except Exception:
-                out = 'ERR'
-            items.append((line, out, {'recipe': recipe, 'op': line}))
-            ctx.nontrivial(('nogrid', conv, tuple(dims)))
-        # only some of a kind's dimensions present -> refused (superset test)
-        if built.conv != 'ugrid':
-            gd = built.grids['face'][0]
-            da = tagged([gd[0], 'time'], {gd[0]: built.grids['face'][1][0], 'time': 2})
-            line = f"ravel {gs} {dflt} {arr_str(da)} -"
-            try:
-                out = arr_str(c.ravel(da))
-                ctx.oracle_fail('partial-grid-accepted', {'recipe': recipe, 'dims': [gd[0], 'time']}, 'ems.ravel accepted a variable with only one of the grid dimensions')
-            except Exception:
-                out = 'ERR'
-            items.append((line, out, {'recipe': recipe, 'op': line}))
+        ctx.guarded(lambda: convention_cases(ctx, conv, items), {'conv': conv, 'dataset': dnum})
     if ctx.searching and ctx.driver is None:
         ctx.evaluated(len(items))
         return
